@@ -51,10 +51,10 @@ def readParts (payload : List Nat) (split : Nat) (mode first second : Nat) : Exc
 /-- deterministic test payload shared with the harness: byte i = (i*7 + seed) % 251. -/
 def detPayload (size seed : Nat) : List Nat := (List.range size).map fun i => (i * 7 + seed) % 251
 
-/-- payload of the harness's half-compressible objects (kind `fstreezs`): one 32-byte run of hash bytes in every 256 bytes
+/-- payload of the harness's half-compressible objects (kind `fstreezs`): one 32-byte run of hash bytes in every 2048 bytes
 of the short period (kept in step with `semiPayload` of harness/eng_range.go) -/
 def semiPayload (size seed : Nat) : List Nat := (List.range size).map fun i =>
-  if (i / 32) % 8 == 0 then ((i * 2654435761 + seed * 97) % 4294967296) / 65536 % 256 else (i * 7 + seed) % 251
+  if (i / 32) % 64 == 0 then ((i * 2654435761 + seed * 97) % 4294967296) / 65536 % 256 else (i * 7 + seed) % 251
 
 def fnv32a (b : List Nat) : Nat :=
   b.foldl (fun h x => ((h ^^^ x) * 16777619) % 4294967296) 2166136261
